@@ -157,6 +157,7 @@ func runSpecCheck(c *Ctx, rtl bool) {
 	add("SEQ k<=3", seq3, "", profP0, 5, false)
 	add("ALT", altL, "", profP0, 5, false)
 	add("ALT", altL, "i", profP0i, 4, false)
+	add("ALTB", altBranchFamily(false), "", profP0, 4, false)
 	add("LOOP", loopF, "", profP0, 5, false)
 	add("LOOK", lookF, "", profP0, 4, false)
 	add("ANCH<=4", anch, "", profile{name: "ANCH {a,\\n,c}", m: map[rune]rune{'b': '\n'}, input: []rune{'a', 'b', 'c'}}, 4, false)
@@ -198,6 +199,7 @@ func runSpecCheck(c *Ctx, rtl bool) {
 		}
 		add("SEQ k<=3 anchored", seqFamily(3, true), "", profP0, 5, true)
 		add("ALT full", altFamily(true), "", profP0, 5, true)
+		add("ALTB full", altBranchFamily(true), "", profP0, 5, true)
 		add("LOOK", lookF, "", profP0, 5, true)
 		add("LOOP", loopF, "", profP0, 6, true)
 		add("CORE-S<=6", coreS6, "", profP0, 4, true)
